@@ -2,7 +2,7 @@
 import re
 
 import facts
-from astlib import block_tail, calls, find_fn, find_impl, find_item, fns_in_file, last, method_calls, pat_paths, render, site, strip, walk
+from astlib import result_expr, block_tail, calls, find_fn, find_impl, find_item, fns_in_file, last, method_calls, pat_paths, render, site, strip, walk
 from finfun import E, NONE, Unsupported, World
 from pathcond import conditions_to, fact_str, facts_str, find_path, let_env
 import reportflow
@@ -187,11 +187,12 @@ def rule_exit_status(ctx, R="C03.2"):
     # reports_written returns the counter
     for q, f in fns_in_file(WR):
         if f["name"] == "reports_written" and "StdoutWriter" in q and "Cached" not in q:
-            t = block_tail(f["body"])
+            t = result_expr(f)
             ctx.check(R, "StdoutWriter::reports_written", t is not None and render(strip(t)) == "self.written", render(t), site(WR, f))
         if f["name"] == "reports_written" and "CachedStdoutWriter" in q:
-            t = block_tail(f["body"])
-            ctx.check(R, "CachedStdoutWriter::reports_written", t is not None and render(strip(t)).replace(" ", "") == "self.writer.reports_written()", render(t), site(WR, f))
+            t = result_expr(f)
+            lenv_c = sgrep.lets(f["body"])
+            ctx.check(R, "CachedStdoutWriter::reports_written", t is not None and (render(strip(t)).replace(" ", "") == "self.writer.reports_written()" or any(render(strip(t)).replace(" ", "") == "%s.reports_written()" % k_ for k_, v_ in lenv_c.items() if render(strip(v_)) == "self.writer")), render(t), site(WR, f))
     # filter(): all filters must accept
     for ty in ("StdoutWriter", "SarifWriter"):
         ff = find_fn(WR, "filter", ty)
@@ -296,11 +297,22 @@ def rule_sarif(ctx):
     t = render(w["body"]).replace(" ", "")
     pvw = sgrep.params(w)
     tl = block_tail(w["body"])
-    ok = len(pvw) == 2 and sgrep.has(w["body"], "self.reports.extend(__rs.iter().cloned())", None, {"__rs": pvw[0]}) and tl is not None and sgrep.match(sgrep.pattern("self.writer.write_reports(__rs, __fl)"), tl, {"__rs": pvw[0], "__fl": pvw[1]})
+    lenv_w = sgrep.lets(w["body"])
+    # every offered report is cached: extend / extend_from_slice with the parameter, or an unconditional push per element
+    cached = len(pvw) == 2 and (sgrep.has(w["body"], "self.reports.extend(__rs.iter().cloned())", None, {"__rs": pvw[0]}) or sgrep.has(w["body"], "self.reports.extend_from_slice(__rs)", None, {"__rs": pvw[0]}) or sgrep.has(w["body"], "self.reports.extend(__rs.to_vec())", None, {"__rs": pvw[0]}))
+    if not cached and len(pvw) == 2:
+        for lp in [n for n in walk(w["body"]) if n["k"] == "For" and render(strip(n["iter"])).replace(" ", "") in (pvw[0], pvw[0] + ".iter()")]:
+            xv = render(lp["pat"]).replace("&", "").strip()
+            ps = [p_ for p_ in method_calls(lp["body"], "push") if render(strip(p_["recv"])) == "self.reports" and render(strip(p_["args"][0])) == xv]
+            if len(ps) == 1 and not (conditions_to(lp["body"], ps[0]) or []) and not [x for x in walk(lp["body"]) if x["k"] in ("Break", "Continue", "Return")]:
+                cached = True
+    # .. and all of them are handed to the inner writer, whose count is returned (the writer may be named by a let)
+    delegated = tl is not None and len(pvw) == 2 and (sgrep.match(sgrep.pattern("self.writer.write_reports(__rs, __fl)"), tl, {"__rs": pvw[0], "__fl": pvw[1]}, lenv_w) or any(sgrep.match(sgrep.pattern("%s.write_reports(__rs, __fl)" % k_), tl, {"__rs": pvw[0], "__fl": pvw[1]}, lenv_w) for k_, v_ in lenv_w.items() if render(strip(v_)) == "self.writer"))
+    ok = cached and delegated
     ctx.check(R, "CachedStdoutWriter::write_reports/cache-all-then-delegate", ok and not [n for n in walk(w["body"]) if n["k"] in ("If", "Match")], t[:200], site(WR, w))
     rp = find_fn(WR, "reports", "CachedStdoutWriter")
     if rp is not None:
-        tt = block_tail(rp["body"])
+        tt = result_expr(rp)
         ctx.check(R, "CachedStdoutWriter::reports", tt is not None and render(strip(tt)) == "self.reports", render(tt))
     # SarifWriter::write_reports filters then serialises exactly the filtered set
     sw_ = None
@@ -323,6 +335,9 @@ def rule_sarif(ctx):
     if ts is None:
         ctx.missing(R, "ToSarif for Report")
     else:
+        from astlib import inline_helpers
+
+        ts = inline_helpers(ts, SC)
         env3 = let_env(ts["body"])
         exp = {"level": "self.category().to_level()", "rule_id": "self.id()"}
         for k, v in exp.items():
@@ -371,7 +386,10 @@ def rule_region(ctx, R="C03.8"):
         if e is None:
             return None
         for c in method_calls(e, "location"):
-            return (render(strip(c["recv"])).replace(" ", ""), tuple(render(strip(a)).replace(" ", "") for a in c["args"]))
+            r_ = strip(c["recv"])
+            if r_["k"] == "Path" and r_["path"] in env:
+                r_ = strip(env[r_["path"]])  # `let storage = files.to_storage();`
+            return (render(r_).replace(" ", ""), tuple(render(strip(a)).replace(" ", "") for a in c["args"]))
         return None
 
     builder = None
@@ -474,7 +492,7 @@ def rule_filter_laws(ctx):
     if f1 is None:
         ctx.missing(R, "filter_by_level")
     else:
-        t = block_tail(f1["body"])
+        t = result_expr(f1)
         tt = render(strip(t)).replace(" ", "") if t else ""
         pv1 = sgrep.params(f1)
         okl = len(pv1) == 2 and t is not None and (sgrep.match(sgrep.pattern("__r.category() >= __l"), t, {"__r": pv1[0], "__l": pv1[1]}, sgrep.lets(f1["body"])) or sgrep.match(sgrep.pattern("__l <= __r.category()"), t, {"__r": pv1[0], "__l": pv1[1]}, sgrep.lets(f1["body"])))
@@ -483,7 +501,7 @@ def rule_filter_laws(ctx):
     if f2 is None:
         ctx.missing(R, "filter_by_id")
     else:
-        t = block_tail(f2["body"])
+        t = result_expr(f2)
         tt = render(t).replace(" ", "") if t else ""
         pv2 = sgrep.params(f2)
         ctx.check(R, "filter_by_id", len(pv2) == 2 and t is not None and sgrep.match(sgrep.pattern("!__a.contains(__r.id())"), t, {"__r": pv2[0], "__a": pv2[1]}, sgrep.lets(f2["body"])), tt, site(MAIN, f2))
@@ -506,7 +524,7 @@ def rule_filter_laws(ctx):
         if f is None:
             ctx.missing(R, "Report::" + nm)
             continue
-        t = block_tail(f["body"])
+        t = result_expr(f)
         ctx.check(R, "Report::" + nm, t is not None and render(strip(t)) == fld, render(t), site(REP, f))
     # add_primary records the file id of the label it adds
     ap = find_fn(REP, "add_primary", "Report")
@@ -523,7 +541,7 @@ def rule_filter_laws(ctx):
         if f is not None:
             t = render(f["body"]).replace(" ", "")
             pvn = sgrep.params(f)
-            ctx.check(R, "Report::%s/category" % nm, len(pvn) == 2 and sgrep.has(f["body"], "Report::new(MessageCategory::%s, __m, __c)" % cat, None, {"__m": pvn[0], "__c": pvn[1]}), t, site(REP, f))
+            ctx.check(R, "Report::%s/category" % nm, len(pvn) == 2 and (sgrep.has(f["body"], "Report::new(MessageCategory::%s, __m, __c)" % cat, sgrep.lets(f["body"]), {"__m": pvn[0], "__c": pvn[1]}) or sgrep.has(f["body"], "Self::new(MessageCategory::%s, __m, __c)" % cat, sgrep.lets(f["body"]), {"__m": pvn[0], "__c": pvn[1]})), t, site(REP, f))
 
 
 def rule_passes(ctx):
@@ -549,7 +567,9 @@ def rule_passes(ctx):
                 ctx.check(R, "registered/%s::%s" % (mod, fn["name"]), (mod, fn["name"]) in registered, "pass %s::%s is not in get_analysis_passes: its findings are never produced" % (mod, fn["name"]), site(f, fn))
     ctx.floor(R, "analysis passes", n, 13)
     # registry is a plain vec of boxed closures / fns (no cfg-gating, no filter)
-    tail = block_tail(reg["body"])
+    tail = result_expr(reg)  # `let passes = vec![..]; passes` reads as the vec
+    if tail is not None:
+        tail = strip(tail)
     ctx.check(R, "get_analysis_passes/plain-list", tail is not None and tail["k"] == "Macro" and tail["name"] == "vec" and len(tail["args"]) >= 13, "registry has %s entries" % (len(tail["args"]) if tail is not None and tail["k"] == "Macro" else "?"), site(PA_LIB, reg))
 
 
